@@ -78,7 +78,7 @@ def main():
         r = sh(f"git -C {target} apply --whitespace=nowarn {patch}")
         assert r.returncode == 0, r.stderr
         for s in a.seeds.split():
-            r = sh(f"./check {prop} --tier {a.tier}" + (" --no-proof" if a.clone else ""), cwd=VERIF, env=dict(os.environ, VERIF_SEED=s, **extra_env), timeout=7200)
+            r = sh(f"./check {prop} --tier {a.tier}" + (" --no-proof" if (a.clone or os.environ.get("SEEDCHECK_NO_PROOF")) else ""), cwd=VERIF, env=dict(os.environ, VERIF_SEED=s, **extra_env), timeout=7200)
             lines = [l for l in r.stdout.splitlines() if l.startswith("VIOLATION")]
             caught[s] = {"exit": r.returncode, "violations": lines[:3]}
             if lines:
